@@ -889,7 +889,9 @@ func runC04(e *Engine, r *Report, tier string) {
 	sub := NewReport("C05", "other")
 	runC05(e, sub, tier)
 	for _, o := range sub.Obls {
-		if o.Rule == "R8" || (o.Rule == "R2" && strings.HasSuffix(o.Construct, " target")) || (o.Rule == "R3" && strings.HasSuffix(o.Construct, "refund-amount")) || (o.Rule == "R5" && (strings.HasSuffix(o.Construct, " amount") || strings.HasSuffix(o.Construct, " same-token"))) {
+		// a transfer deleted from the pool without entering the batch is value taken from its sender that is neither queued
+		// nor refundable (round-8 seed C04 = the edit of C05-3): the pick obligations of C05.R2 are C04's as well
+		if o.Rule == "R8" || (o.Rule == "R2" && (strings.HasSuffix(o.Construct, " target") || strings.HasSuffix(o.Construct, " pick"))) || (o.Rule == "R3" && strings.HasSuffix(o.Construct, "refund-amount")) || (o.Rule == "R5" && (strings.HasSuffix(o.Construct, " amount") || strings.HasSuffix(o.Construct, " same-token"))) {
 			r.add("R6", "C05."+o.Rule+" "+o.Construct, o.Status, o.Pos, o.Detail)
 		}
 	}
